@@ -103,6 +103,34 @@ fn play(src: &str, ops: &[String]) -> serde_json::Value {
     })
 }
 
+#[cfg(bladeink_verif)]
+fn hooks(args: &[String]) -> serde_json::Value {
+    use bladeink::verif_hooks::*;
+    use std::hash::{Hash, Hasher};
+    fn h<T: Hash>(t: &T) -> u64 { let mut s = std::collections::hash_map::DefaultHasher::new(); t.hash(&mut s); s.finish() }
+    match args[0].as_str() {
+        // path-rt <text>: parse, print, re-parse; compare with a path built from the same components
+        "path-rt" => {
+            let p = Path::new_with_components_string(Some(&args[1]));
+            let printed = p.to_string();
+            let p2 = Path::new_with_components_string(Some(&printed));
+            let mut comps = vec![];
+            let mut i = 0;
+            while let Some(c) = p.get_component(i) { comps.push(c.clone()); i += 1; }
+            let built = Path::new(&comps, p.is_relative());
+            serde_json::json!({"input": args[1], "is_relative": p.is_relative(), "printed": printed, "reparsed_equal": p == p2,
+                "reparsed_is_relative": p2.is_relative(), "built_equal": built == p, "built_printed": built.to_string(), "hash_equal": h(&built) == h(&p)})
+        }
+        // path-append <base> <rel>
+        "path-append" => {
+            let a = Path::new_with_components_string(Some(&args[1]));
+            let b = Path::new_with_components_string(Some(&args[2]));
+            serde_json::json!({"result": a.path_by_appending_path(&b).to_string()})
+        }
+        _ => serde_json::json!({"error": "unknown hook scenario"}),
+    }
+}
+
 fn main() {
     let args: Vec<String> = std::env::args().collect();
     match args.get(1).map(|s| s.as_str()) {
@@ -110,6 +138,8 @@ fn main() {
             let out = play(&args[2], &args[3..]);
             println!("{}", out);
         }
+        #[cfg(bladeink_verif)]
+        Some("hook") => { println!("{}", hooks(&args[2..])); }
         _ => { eprintln!("usage: replay ink '<source>' [ops]"); std::process::exit(64); }
     }
 }
